@@ -891,10 +891,31 @@ fn alpn_wire(protos: &[String]) -> Vec<u8> {
 /// Performs a TLS handshake over `stream` offering `protos` (none if empty),
 /// with SNI `sni`, no certificate verification, and reports what the server did.
 pub fn tls_probe<S: IoRead + IoWrite + std::fmt::Debug>(stream: S, sni: &str, protos: &[String]) -> Value {
+    tls_probe_versions(stream, sni, protos, None, None)
+}
+
+fn tls_version(v: &str) -> Option<openssl::ssl::SslVersion> {
+    match v {
+        "1.0" => Some(openssl::ssl::SslVersion::TLS1),
+        "1.1" => Some(openssl::ssl::SslVersion::TLS1_1),
+        "1.2" => Some(openssl::ssl::SslVersion::TLS1_2),
+        "1.3" => Some(openssl::ssl::SslVersion::TLS1_3),
+        _ => None,
+    }
+}
+
+/// `tls_probe` by a client restricted to a range of protocol versions ("1.2", "1.3").
+pub fn tls_probe_versions<S: IoRead + IoWrite + std::fmt::Debug>(stream: S, sni: &str, protos: &[String], min: Option<&str>, max: Option<&str>) -> Value {
     let mut b = match SslConnector::builder(SslMethod::tls()) {
         Ok(b) => b,
         Err(e) => return json!({"handshake_ok": false, "err": e.to_string()}),
     };
+    if let Some(v) = min.and_then(tls_version) {
+        let _ = b.set_min_proto_version(Some(v));
+    }
+    if let Some(v) = max.and_then(tls_version) {
+        let _ = b.set_max_proto_version(Some(v));
+    }
     b.set_verify(SslVerifyMode::NONE);
     if !protos.is_empty() {
         let _ = b.set_alpn_protos(&alpn_wire(protos));
